@@ -30,6 +30,42 @@ END
 """
 
 
+WITNESS2_TEXT = """WIS DEFINITIONS AUTOMATIC TAGS ::= BEGIN
+  N ::= NumericString (SIZE(0..255))
+  H ::= IA5String (FROM("0".."9" | "A".."F"))
+  A ::= IA5String (FROM("a".."z"))
+  P ::= PrintableString
+  V ::= VisibleString (SIZE(1..4))
+  B ::= BMPString (FROM("a".."f"))
+END
+"""
+
+
+def witness2_module():
+    return {"name": "WIS", "default": "AUTOMATIC", "defs": [(n, None) for n in "NHAPVB"], "trees": {}, "text": WITNESS2_TEXT, "wide": True}
+
+
+def witness2_values():
+    def s(tag, b):
+        return "%02x%02x%s" % (tag, len(b), b.hex())
+    return [("N", s(0x12, b"0123 9")), ("N", s(0x12, b"")), ("H", s(0x16, b"09AF")), ("H", s(0x16, b"C")), ("A", s(0x16, b"abz")), ("A", s(0x16, b"q")),
+            ("P", s(0x13, b"Ab 9'")), ("V", s(0x1a, b"a~ ")), ("B", s(0x1e, b"\x00a\x00f"))]
+
+
+def needs_per_char_map(text):
+    """the module has a known-multiplier string whose effective permitted alphabet asn1c turns into a PER character
+    map (asn_PER_MAP_*): NumericString (implicit alphabet) or a FROM constraint"""
+    return re.search(r"NumericString|FROM\s*\(", text) is not None
+
+
+def split_along_no_constraints(variants, groups):
+    """the builds disagree exactly along -fno-constraints (groups: {output: [build indices]})"""
+    if len(groups) != 2:
+        return False
+    sides = [set("-fno-constraints" in variants[vi].opts for vi in g) for g in groups.values()]
+    return all(len(x) == 1 for x in sides) and sides[0] != sides[1]
+
+
 def der_int(v, tag="02"):
     n = 1
     while not (-(1 << (8 * n - 1)) <= v < (1 << (8 * n - 1))):
@@ -284,7 +320,7 @@ def main(tier):
         nm, nt, nv = (6, 5, 6) if quick else (5, 5, 10)
         mods, cases = build_corpus(run, rng, nm, nt, nv, tier, opts=BASE, tag="opt0")
         wg = WGen(rng, features=WIDE_FEATURES)
-        wmods = [wg.module("W%d" % i, 5) for i in range(5 if quick else 5)] + [witness_module()]
+        wmods = [wg.module("W%d" % i, 5) for i in range(5 if quick else 5)] + [witness_module(), witness2_module()]
         build_modules(wmods, tag="wopt0", opts=BASE)
         mv = build_variants(mods, optsets, jobs=3)
         wv = build_variants(wmods, optsets, jobs=3, prefix="wopt")
@@ -338,7 +374,7 @@ def main(tier):
         if not m.get("exe"):
             run.count("wide_module_not_built")
             continue
-        if m["name"] == "WIT":
+        if m["name"] in ("WIT", "WIS"):
             continue
         lines = []
         for tn, _ in m["defs"]:
@@ -355,11 +391,22 @@ def main(tier):
         values = sorted(set(values))
 
         def wclassify(j, s, kind, detail, m=m, values=values):
+            g = detail if kind == "enc-differs" else detail.get("groups", {})
+            if s == "uper" and needs_per_char_map(m["text"]) and split_along_no_constraints(wvariants, g):
+                return "C13-no-constraints-per-alphabet"
             return None
         check_module(run, rng, tier, wvariants, m["name"], values, wclassify, "wide", dec_limit=150 if quick else None)
         if values:
             run.sample({"wide_module": m["text"][:300], "type": values[0][0], "der": values[0][1][:80]})
-    # ------------------------------------------------------------ witness layer
+    # ------------------------------------------------------------ witness layers
+    wis = wvariants[0].mods.get("WIS")
+    if wis and wis.get("exe"):
+        def sclassify(j, s, kind, detail):
+            g = detail if kind == "enc-differs" else detail.get("groups", {})
+            if s == "uper" and split_along_no_constraints(wvariants, g):
+                return "C13-no-constraints-per-alphabet"
+            return None
+        check_module(run, rng, tier, wvariants, "WIS", witness2_values(), sclassify, "witness")
     wit = wvariants[0].mods["WIT"]
     if wit.get("exe"):
         wvals = witness_values()
